@@ -273,8 +273,8 @@ class Gf180Walker(h.HierarchyWalker):
 
     def bjt_module_call(self, params: BipolarParams):
         # First check our cache
-        if params in CACHE.diode_modcalls:
-            return CACHE.diode_modcalls[params]
+        if params in CACHE.bjt_modcalls:
+            return CACHE.bjt_modcalls[params]
 
         mod = self.bjt_module(params)
 
